@@ -228,7 +228,11 @@ macro_rules! purge_method_for_document_type {
       // Removing a general-purpose method also removes the relationship references to it, which
       // `insert_method(method, scope)` cannot bring back: roll back to a snapshot of the document instead.
       let snapshot: $t = document.clone();
-      let (method, _scope) = document.remove_method_and_scope(id).ok_or(Error::MethodNotFound)?;
+      let Some((method, _scope)) = document.remove_method_and_scope(id) else {
+        // Even without finding a method, `remove_method_and_scope` removes the references to `id`.
+        *document = snapshot;
+        return Err(Error::MethodNotFound);
+      };
 
       // Obtain method digest and handle error if this operation fails.
       let method_digest: MethodDigest = match MethodDigest::new(&method).map_err(Error::MethodDigestConstructionError) {
